@@ -287,7 +287,43 @@ func (g *ygen) typeStmt(path string) {
 		g.where[path+"/Type/Length[0]/String"] = "length|" + st
 		pat := rapid.SampledFrom([]string{"[a-z]+", "a\\d*", "x y", "[^\"']*", "(a|b)+"}).Draw(g.t, "pattern")
 		if g.maybe("pattern?") {
-			g.sarg("pattern", pat, path+"/Type/Patterns[0]/.Pattern", true)
+			// the same few pattern texts recur on many leaves with different substatements
+			pp := path + "/Type/Patterns[0]"
+			r, st := g.str(pat, true)
+			g.styles[st] = true
+			g.exp[pp+"/.Pattern"] = pat
+			g.where[pp+"/.Pattern"] = "pattern|" + st
+			g.exp[pp+"/Inverted"], g.where[pp+"/Inverted"] = "false", "pattern-detail|plain"
+			g.exp[pp+"/ErrorMessage"], g.where[pp+"/ErrorMessage"] = "", "pattern-detail|plain"
+			g.exp[pp+"/ErrorAppTag"], g.where[pp+"/ErrorAppTag"] = "", "pattern-detail|plain"
+			g.exp[pp+"/Description"], g.where[pp+"/Description"] = "", "pattern-detail|plain"
+			if g.maybe("patbody?") {
+				g.block("pattern", r, func() {
+					if g.maybe("inv?") {
+						g.b.WriteString("modifier")
+						g.gap()
+						g.b.WriteString("invert-match;")
+						g.gap()
+						g.exp[pp+"/Inverted"] = "true"
+					}
+					if g.maybe("em?") {
+						g.sarg("error-message", g.text(), pp+"/ErrorMessage", true)
+					}
+					if g.maybe("eat?") {
+						g.sarg("error-app-tag", rapid.SampledFrom([]string{"tag-1", "too big", "x"}).Draw(g.t, "eat"), pp+"/ErrorAppTag", true)
+					}
+					if g.maybe("desc?") {
+						g.sarg("description", g.text(), pp+"/Description", true)
+					}
+				})
+			} else {
+				g.b.WriteString("pattern")
+				if st != "multiline" {
+					g.gap()
+				}
+				g.b.WriteString(r + ";")
+				g.gap()
+			}
 		}
 		g.close()
 	case 2:
